@@ -65,8 +65,7 @@ Definition rating_args (m : Z) (L : Q) (k : option Q) : res unit :=
   else match k with
        | None => ok tt
        | Some k' =>
-           if Qeq_bool k' 0 then ok tt            (* `if k and ...`: a zero budget is falsy *)
-           else if Qle_bool k' 0 then err EValue
+           if Qle_bool k' 0 then err EValue
            else if Qlt_bool k' L then err EValue
            else ok tt
        end.
@@ -78,8 +77,7 @@ Definition rating_validate (L : Q) (k : option Q) (p : profile) : res unit :=
         if existsb (fun q => Qlt_bool L (snd q)) d then err EType
         else if existsb (fun q => Qlt_bool (snd q) 0) d then err EType
         else match k with
-             | Some k' => if negb (Qeq_bool k' 0) && Qlt_bool k' (qsum (map snd d))
-                          then err EType else ok tt
+             | Some k' => if Qlt_bool k' (qsum (map snd d)) then err EType else ok tt
              | None => ok tt
              end
     end) (ballots p).
@@ -148,14 +146,15 @@ Definition run_toptwo (tb : option tb_kind) (p : profile) : M (list estate) :=
   | _ => mfail EOther
   end.
 
-(* get_profile(r) of a finished STV object: replay r steps against the FINAL object *)
-Fixpoint stv_replay (cfg : stv_cfg) (t : Q) (p0 : profile) (n_final : Z) (p : profile)
+(* get_profile(r) of a finished STV object: replay r steps; each step sees the winners elected
+   up to its previous round ([done] = the states before [prev], oldest first) *)
+Fixpoint stv_replay (cfg : stv_cfg) (t : Q) (p0 : profile) (done : list estate) (p : profile)
          (sts : list estate) : M profile :=
   match sts with
   | [] => mret p
   | prev :: rest =>
-      do! (np, _) := stv_step cand ceqb cfg t p0 n_final p prev in
-      stv_replay cfg t p0 n_final np rest
+      do! (np, _) := stv_step cand ceqb cfg t p0 (count_elected cand (done ++ [prev])) p prev in
+      stv_replay cfg t p0 (done ++ [prev]) np rest
   end.
 
 Definition bump (s : estate) : estate :=
@@ -178,7 +177,7 @@ Definition run_alaska (m1 m2 : Z) (cfg : stv_cfg) (p : profile) : M (list estate
   do! t := mlift (stv_init cand c2 p1) in
   do! sts := run_stv cand ceqb c2 p1 in
   (* stv.get_profile(): replay of every STV round against the finished STV object *)
-  do! _ := stv_replay c2 t p1 (count_elected cand sts) p1 (removelast sts) in
+  do! _ := stv_replay c2 t p1 [] p1 (removelast sts) in
   mret (s0 :: s1 :: map bump (tl sts)).
 
 (* ---------- RandomDictator / BoostedRandomDictator ---------- *)
@@ -240,7 +239,7 @@ Definition brd_step (p : profile) (prev : estate) : M (profile * estate) :=
   match du with
   | DUnit u =>
       match cands p with
-      | [c] => mfail EUnbound               (* `tiebreaks` is never bound on this path *)
+      | [c] => elect_one c [] p prev
       | cs =>
           if Qle_bool u (1 / (Qnat (length cs) - 1))
           then
@@ -353,7 +352,7 @@ Definition replay_profile (ru : rule) (p : profile) (sts : list estate) (r : nat
   match ru with
   | RSTV cfg =>
       do! t := mlift (stv_init cand cfg p) in
-      stv_replay cfg t p (count_elected cand sts) p (firstn r sts)
+      stv_replay cfg t p [] p (firstn r sts)
   | _ =>
       match r with
       | O => mret p
